@@ -96,12 +96,31 @@ pub struct DnsResolution;
 
 fn gen_name(e: &mut Entropy, used: &[String]) -> String {
     for attempt in 0..6 {
-        let n = match e.weighted(&[4, 3, 2]) {
+        // names related to one that exists: other letter case, a prefix, an extension
+        if !used.is_empty() && e.chance(1, 3) {
+            let base = &used[e.choose(used.len())];
+            let s: String = match e.choose(4) {
+                0 => base.chars().map(|c| if c.is_ascii_lowercase() { c.to_ascii_uppercase() } else { c.to_ascii_lowercase() }).collect(),
+                1 => {
+                    let k = e.choose(base.chars().count().max(1));
+                    base.chars().enumerate().map(|(i, c)| if i == k { if c.is_ascii_lowercase() { c.to_ascii_uppercase() } else { c.to_ascii_lowercase() } } else { c }).collect()
+                }
+                2 => base.chars().take(base.chars().count().saturating_sub(1).max(1)).collect(),
+                _ => format!("{base}{}", *e.pick(&['a', '.', '0', 'Z'])),
+            };
+            if !s.is_empty() && !used.contains(&s) && s != "testserver.com" && s != "google.com" {
+                return s;
+            }
+        }
+        let n = match e.weighted(&[8, 6, 4, 1, 1]) {
             0 => 1 + e.choose(12),
             1 => 13 + e.choose(20),
-            _ => 30 + e.choose(31),
+            2 => 30 + e.choose(31),
+            3 => 60 + e.choose(200),
+            _ => 230 + e.choose(500),
         };
-        let s: String = (0..n)
+        let drawn = n.min(40);
+        let s: String = (0..drawn)
             .map(|_| match e.weighted(&[8, 2, 1, 1]) {
                 0 => (b'a' + e.choose(26) as u8) as char,
                 1 => *e.pick(&['.', '-', '_', '0', '9', 'Z']),
@@ -109,6 +128,8 @@ fn gen_name(e: &mut Entropy, used: &[String]) -> String {
                 _ => *e.pick(&['é', 'ü', '世', 'λ']),
             })
             .collect();
+        // long names: the drawn characters repeated up to the length
+        let s: String = if n > drawn { s.chars().cycle().take(n).collect() } else { s };
         if !used.contains(&s) && s != "testserver.com" && s != "google.com" {
             return s;
         }
@@ -124,38 +145,52 @@ impl Check for DnsResolution {
         "C20"
     }
     fn rule(&self) -> String {
-        "generated: an authoritative server (SocketAPI + DnsServer) with 1..6 extra records (names of 1..60 printable characters without the delimiter, incl. multi-byte UTF-8; arbitrary addresses) and 1..6 clients (SocketAPI + DnsClient + harness application) each running 1..5 lookups that are sequential, concurrent or repeated, started at 0..50 ms; random per-frame delays reorder queries and replies (no loss: DNS here has no retry); oracle: every lookup returns exactly the registered address; every DNS response frame delivered to a client echoes the identifier and the name of a query that client sent from the port the response is addressed to; a lookup issued after a successful lookup of the same name on the same client returns the same address while no frame leaves that machine between its start and its end. non-trivial: >= 2 clients or >= 2 names with at least one delayed frame, or a cache hit. distinct: hash of decoded configuration".into()
+        "generated: an authoritative server (SocketAPI + DnsServer) with 1..6 extra records (names of 1..60, sometimes up to 730 printable characters without the delimiter, incl. multi-byte UTF-8, a third of them derived from another registered name by changing letter case, dropping the last or appending a character; arbitrary addresses) and 1..6 clients (SocketAPI + DnsClient + harness application) each running 1..5 lookups that are sequential, concurrent or repeated, started at 0..50 ms; random per-frame delays reorder queries and replies (no loss: DNS here has no retry); oracle: every lookup returns exactly the registered address; every DNS response frame delivered to a client echoes the identifier and the name of a query that client sent from the port the response is addressed to; a lookup issued after a successful lookup of the same name on the same client returns the same address while no frame leaves that machine between its start and its end. non-trivial: >= 2 clients or >= 2 names with at least one delayed frame, or a cache hit. distinct: hash of decoded configuration".into()
     }
     fn assumptions(&self) -> Vec<String> {
         vec!["the server is configured to serve at least as many connections as there are uncached lookups (DnsServer::new(n) stops after n)".into()]
     }
     fn max_entropy(&self) -> usize {
-        400
+        700
     }
     fn run(&self, e: &mut Entropy, ctx: &mut Ctx) -> Result<(), Failure> {
+        // plan first (record count, who looks up which record when, delays), names last: long names eat entropy
         let nrec = 1 + e.choose(6);
+        let nclients = 1 + e.choose(6);
+        let mut plan: Vec<Vec<(Option<usize>, usize, u64, bool)>> = vec![]; // (repeat of earlier lookup j, record index, at, sequential)
+        for _ in 0..nclients {
+            let k = 1 + e.choose(5);
+            let mut v = vec![];
+            for j in 0..k {
+                let rep = if j > 0 && e.chance(2, 5) { Some(e.choose(j)) } else { None };
+                v.push((rep, e.choose(nrec + 2), e.choose(50) as u64, j > 0 && e.bool()));
+            }
+            plan.push(v);
+        }
+        let delays: Vec<u64> = (0..12).map(|_| *e.pick(&[0u64, 0, 1, 4, 11, 30])).collect();
         let mut names: Vec<String> = vec![];
         let mut records: Vec<(String, [u8; 4])> = vec![("testserver.com".into(), [123, 45, 67, 15]), ("google.com".into(), [123, 45, 67, 60])];
         for _ in 0..nrec {
+            let a = e.u32().to_be_bytes();
             let n = gen_name(e, &names);
             names.push(n.clone());
-            records.push((n, e.u32().to_be_bytes()));
+            records.push((n, a));
         }
-        let nclients = 1 + e.choose(6);
         let mut lookups: Vec<Vec<Lookup>> = vec![];
         let mut id = 0;
-        for _ in 0..nclients {
-            let k = 1 + e.choose(5);
+        for pl in &plan {
             let mut v: Vec<Lookup> = vec![];
-            for j in 0..k {
-                let name = if j > 0 && e.chance(2, 5) { v[e.choose(j)].name.clone() } else { records[e.choose(records.len())].0.clone() };
-                v.push(Lookup { id, name, at_ms: e.choose(50) as u64, sequential: j > 0 && e.bool() });
+            for (rep, rec, at, seq) in pl {
+                let name = match rep {
+                    Some(j) => v[*j].name.clone(),
+                    None => records[*rec].0.clone(),
+                };
+                v.push(Lookup { id, name, at_ms: *at, sequential: *seq });
                 id += 1;
             }
             lookups.push(v);
         }
         let total = id;
-        let delays: Vec<u64> = (0..12).map(|_| *e.pick(&[0u64, 0, 1, 4, 11, 30])).collect();
 
         let wire = Wire::new();
         let dl = delays.clone();
@@ -241,6 +276,16 @@ impl Check for DnsResolution {
         }
         if names.iter().any(|n| n.len() > 24) {
             ctx.class("name_longer_than_24_bytes");
+        }
+        if names.iter().any(|n| n.len() > 240) {
+            ctx.class("name_longer_than_240_bytes");
+        }
+        let looked: Vec<&String> = lookups.iter().flatten().map(|l| &l.name).collect();
+        if lookups.iter().any(|ls| ls.iter().any(|a| ls.iter().any(|b| a.name != b.name && a.name.to_lowercase() == b.name.to_lowercase()))) {
+            ctx.class("one_client_resolves_two_names_differing_in_case");
+        }
+        if looked.iter().any(|a| looked.iter().any(|b| a != b && b.starts_with(a.as_str()))) {
+            ctx.class("a_resolved_name_is_a_prefix_of_another");
         }
         Ok(())
     }
